@@ -93,6 +93,10 @@ impl PivotFinder {
 
         self.find_fl_pivots();
         self.find_fl_col_pivots();
+
+        #[cfg(yui_verif)]
+        crate::verif::emit(crate::verif::PivotEvent::SeqDone { pivots: self.pivots.iter().collect() });
+
         self.find_cycle_free_pivots();
 
         debug!("pivots: {:?} => {}.", self.str.shape(), self.pivots.count());
@@ -263,6 +267,9 @@ impl PivotFinder {
             loc_pivots.update_from(&pivots.read().unwrap());
             w.init(i, &self.str, &loc_pivots);
 
+            #[cfg(yui_verif)]
+            crate::verif::emit(crate::verif::PivotEvent::TaskStart { row: i, snapshot: loc_pivots.count() });
+
             self.find_cycle_free_pivots_in(&pivots, &mut loc_pivots, &mut w);
 
             if report { 
@@ -282,6 +289,9 @@ impl PivotFinder {
         loop { 
             w.traverse(&self.str, loc_pivots);
     
+            #[cfg(yui_verif)]
+            crate::verif::emit(crate::verif::PivotEvent::Candidate { row: w.row, col: w.choose_candidate(&self.str), snapshot: loc_pivots.count() });
+
             let Some(j) = w.choose_candidate(&self.str) else {
                 break
             };
@@ -293,9 +303,15 @@ impl PivotFinder {
             w.update_diff(&loc_pivots, &pivots);
             
             if w.should_retry() { 
+                #[cfg(yui_verif)]
+                crate::verif::emit(crate::verif::PivotEvent::Retry { row: w.row, snapshot: loc_pivots.count(), current: pivots.count() });
+
                 loc_pivots.update_from(&pivots);
                 continue
             } else { 
+                #[cfg(yui_verif)]
+                crate::verif::emit(crate::verif::PivotEvent::Commit { row: w.row, col: j, snapshot: loc_pivots.count(), index: pivots.count() });
+
                 pivots.set(w.row, j);
                 break
             }    
